@@ -172,6 +172,58 @@ def map_part(ctx, dist):
     return n
 
 
+def coroutine_returning_part(ctx, dist):
+    """A plain `def` node that hands back a coroutine (an async def behind a sync wrapper): a run that does not fail has the same
+    outcome under both runners - SyncRunner, which cannot await, may refuse the graph, but must not complete with other values."""
+    import asyncio
+    from hypergraph import AsyncRunner, Graph, SyncRunner
+    from hypergraph.nodes import FunctionNode
+    rng = ctx.rng
+    n = 0
+    for _ in range(ctx.n(10, 60)):
+        k = rng.randint(1, 5)
+        position = rng.choice(["first", "middle"])
+
+        async def _fetch(v, k=k):
+            await asyncio.sleep(0)
+            return v * k
+
+        def fetch(v):
+            return _fetch(v)          # plain function, returns the coroutine
+
+        def pre(x):
+            return x + 1
+
+        def post(w):
+            return ("post", w)
+        nodes = [FunctionNode(fetch, name="fetch", output_name="w").with_inputs(v="x" if position == "first" else "p"),
+                 FunctionNode(post, name="post", output_name="out")]
+        if position == "middle":
+            nodes.append(FunctionNode(pre, name="pre", output_name="p"))
+        rng.shuffle(nodes)
+        G = Graph(nodes)
+        x = rng.randint(0, 4)
+        ra = asyncio.run(AsyncRunner().run(G, {"x": x}))
+        want = (ra.status.value, dict(ra.values))
+        import warnings
+        with warnings.catch_warnings():
+            warnings.simplefilter("ignore")
+            try:
+                rs = SyncRunner().run(G, {"x": x})
+                got = (rs.status.value, {k_: (v_ if not asyncio.iscoroutine(v_) else "<coroutine object>") for k_, v_ in rs.values.items()})
+                for v_ in rs.values.values():
+                    if asyncio.iscoroutine(v_):
+                        v_.close()
+            except Exception as e:  # noqa: BLE001
+                got = ("raised", type(e).__name__)
+        n += 2
+        dist["coroutine_returning"] = dist.get("coroutine_returning", 0) + 1
+        if got[0] == "completed" and got != want:
+            ctx.violation("oracle", f"a plain function returning a coroutine: AsyncRunner gives {want}, SyncRunner completes with {got}",
+                          case={"family": "coroutine_returning", "k": k, "position": position, "x": x})
+    return n
+
+
 def run(ctx):
     rng = ctx.rng
     n_prog = ctx.n(220, 1500)
@@ -213,6 +265,7 @@ def run(ctx):
             dist["perm"] += 1
         groups.append(idxs)
     n_map = map_part(ctx, dist)
+    n_map += coroutine_returning_part(ctx, dist)
     obs_all, res = engine.run_cases(ctx, "C02", cases)
     nontrivial = set()
     for idxs in groups:
